@@ -140,6 +140,11 @@ class SizeConstraintList(list[SizeConstraint]):
             except ConstraintObsoleteError:
                 self.remove(constraint)
 
+    def abandon_inner(self, constraint):
+        """The owner of constraint gave up on its body: the constraints opened inside will never be finished."""
+        for inner in self[self.index(constraint) + 1 :]:
+            inner.is_obsolete = True
+
     def assert_done(self):
         # if not all constraints are obsolete by now, this is a bug
         assert all(constraint.is_obsolete for constraint in self)
